@@ -45,9 +45,9 @@ def macIsUnicast (a : Bytes) : Bool := !(a == macBroadcast) && !((a.headD 0).toN
 /-- `Dot1Q::get_id` (little-endian bit-field branch): `idL | (idH << 8)` -/
 def vlanId (h : Bytes) : Nat := (h.getD 1 0).toNat + ((h.getD 0 0).toNat % 16) * 256
 
-/-- `IPv6::is_extension_header` -/
+/-- `IPv6::is_extension_header` (the authentication header, 51, is a layer of its own: IPSecAH) -/
 def isExtHdr (h : UInt8) : Bool :=
-  h == 0 || h == 60 || h == 43 || h == 44 || h == 51 || h == 60 || h == 135 || h == 59
+  h == 0 || h == 60 || h == 43 || h == 44 || h == 60 || h == 135 || h == 59
 
 /-- the `while (total_sz > 8 && is_extension_header(current))` loop of `IPv6::matches_response`
     followed by `if (!is_extension_header(current))`: `some buf'` = call the inner matcher on `buf'`,
